@@ -169,6 +169,35 @@ Plan genDensity(const std::string &profile, uint64_t seed, int tier) {
   if (rc.chance(0.2))
     for (auto &k : p.circuit.cells)
       if (!k.fixed && rc.chance(0.1)) k.w = 0;  // zero-area movable cells belong to no bin
+  if (rc.chance(0.25)) {
+    // fine database units: cell areas up to 2^30, so that the demand of a (coarse) bin exceeds 2^31
+    long long M = 1, maxArea = 1;
+    for (auto &rw : p.circuit.rows) M = std::max<long long>({M, std::llabs((long long)rw.minX), std::llabs((long long)rw.maxX), std::llabs((long long)rw.minY), std::llabs((long long)rw.maxY)});
+    for (auto &k : p.circuit.cells) {
+      M = std::max<long long>({M, std::llabs((long long)k.x), std::llabs((long long)k.y), (long long)k.w, (long long)k.h});
+      maxArea = std::max<long long>(maxArea, (long long)std::max(1, k.w) * std::max(1, k.h));
+    }
+    int k = 0;
+    while (k < 20 && (M << (k + 1)) <= (1LL << 21) && (maxArea << (2 * (k + 1))) < (1LL << 30)) ++k;
+    long long u = 1LL << k;
+    for (auto &rw : p.circuit.rows) {
+      rw.minX *= u;
+      rw.maxX *= u;
+      rw.minY *= u;
+      rw.maxY *= u;
+    }
+    for (auto &c : p.circuit.cells) {
+      c.x *= u;
+      c.y *= u;
+      c.w *= u;
+      c.h *= u;
+    }
+    for (auto &net : p.circuit.nets)
+      for (size_t q = 0; q < net.cells.size(); ++q) {
+        net.xo[q] *= u;
+        net.yo[q] *= u;
+      }
+  }
   // rough-legalization parameter set (must pass check(); the executor verifies)
   Op holder;
   holder.kind = OP_CHECK;
